@@ -3,6 +3,7 @@ UNITS = {
     "names": ["C16"],
     "wire_decode": ["C03", "C16"],
     "wire_codec": ["C04"],
+    "zone_merge": ["C12"],
 }
 # property -> clauses of the statement that no contract decides (reported in the evidence)
 UNDECIDED_CLAUSES = {
